@@ -56,6 +56,7 @@ class Watch:
         self.not_before = 0.0
         self.opened_at = self.loop.time()
         self.closed_at = None
+        self.closed_seq = None     # the global tick at which the stream ended (orders it among co-temporal happenings)
         self.delivered = []        # (t, type, rv, uid)
         self.fifo = collections.deque()   # in-flight items; timers only say "deliver the next one" (keeps the order
                                           # even when two deliveries are due at the very same instant)
@@ -109,6 +110,7 @@ class Watch:
             return
         self.closed = True
         self.closed_at = self.loop.time()
+        self.closed_seq = self.cluster.world.tick()
         self.cluster.drop_watch(self)
         self._enqueue(max(self.loop.time(), self.not_before), exc, None)
 
@@ -120,6 +122,7 @@ class Watch:
         self.closed = True
         if self.closed_at is None:
             self.closed_at = self.loop.time()
+            self.closed_seq = self.cluster.world.tick()
         self.cluster.drop_watch(self)
         self.queue.put_nowait(exc)
 
@@ -830,6 +833,7 @@ class FakeCluster:
             if w.session.client_id == client_id:
                 w.closed = True
                 w.closed_at = self.world.now
+                w.closed_seq = self.world.tick()
                 self.drop_watch(w)
 
     def open_watches(self, client_id=None):
